@@ -112,8 +112,9 @@ structure Env where
   repaired code (`return self.fail(...)`, /repo 778bd07); `false` = the code before the repair
   (`return False` without failing the match, finding C06-F1) — kept for the refutation witness. -/
   fixF1 : Bool := true
-  /-- `math.isclose(host, pattern, rel_tol, abs_tol)` — abstract here (C05 judges its use). -/
-  close : Int → Int → Bool
+  /-- `math.isclose(host, pattern, rel_tol=…, abs_tol=…)` — an abstract relation indexed by the two
+  tolerances the `Constant` pattern carries (C05 judges the numeric use). -/
+  close : Tol → Tol → Int → Int → Bool
 
 /-! ## NodePattern.matches -/
 
@@ -150,13 +151,13 @@ def allClose (close : Int → Int → Bool) : List Int → List Int → Bool
   | [], _ :: _ => false
   | x :: xs, c :: cs => close x c && allClose close xs cs
 
-def constOk (close : Int → Int → Bool) (c : ConstPat) (cv : ConstVal) : Bool :=
-  match c with
-  | .list l => cv.shape == [l.length] && allClose close cv.data l
+def constOk (close : Tol → Tol → Int → Int → Bool) (c : ConstPat) (cv : ConstVal) : Bool :=
+  match c.val with
+  | .list l => cv.shape == [l.length] && allClose (close c.relTol c.absTol) cv.data l
   | .scalar s =>
     cv.shape.isEmpty &&
     (match cv.data with
-     | x :: _ => close x s
+     | x :: _ => close c.relTol c.absTol x s
      | [] => false)
 
 def matchConstant (E : Env) (c : ConstPat) (x : ValueId) (st : Stack) : R :=
